@@ -607,7 +607,7 @@ def run(chk):
             chk.violation(r_sc, nm + ":" + pr[:30], "%s: %s" % (nm, pr), f["file"], f["l"])
 
     # ---- C12.fielddata: the storage object of one keyword
-    r_fd = chk.rule("C12.fielddata", "FieldData<T>: the constructor sizes data and value_status to active cells x values per cell (all uninitialized), global storage to global cells x values per cell, and applies the keyword's scalar default if it has one; numCells() is data.size() / values per cell; default_assign(value) fills data and status (valid_default) of the active and, if present, the global storage; default_update(src) writes src[i] and valid_default exactly into the entries that have no value; update_local_from_global copies value and status of global cell local_to_global(i) into entry i for every i; operator== compares all five stored members", floor=8)
+    r_fd = chk.rule("C12.fielddata", "FieldData<T>: the constructor sizes data and value_status to active cells x values per cell (all uninitialized), global storage to global cells x values per cell, and applies the keyword's scalar default if it has one; numCells() is data.size() / values per cell; default_assign(value) fills data and status (valid_default) of the active and, if present, the global storage; default_update(src) writes src[i] and valid_default exactly into the entries that have no value; update_local_from_global copies value and status of global cell local_to_global(i) into entry i for every i; operator== compares all five stored members; compress moves every active entry down by the number of inactive entries before it; valid() means no status is uninitialized or empty_default; update_global_from_local (FieldProps.cpp) writes value and status of every listed cell into the global storage", floor=12)
     fdf = {}
     for f in fx.fns:
         if (f.get("cls") or "").endswith("Fieldprops::FieldData") and f["file"].endswith("FieldData.hpp") and f.get("body") is not None:
@@ -682,6 +682,40 @@ def run(chk):
             if not ok:
                 found = "inc %s, cond %s, body %s" % (sorted(incs), show(lp["cond"]), body_txt)
     fd_clause("update_local_from_global", ul, ok, found if not ok else "ok", "entry i of data / value_status receives global_data / global_value_status at local_to_global(i); all three cursors advance together")
+    cf = [f for f in fx.fns if f["n"] == "compress" and not f.get("cls") and f["file"].endswith("FieldData.hpp")]
+    if len(cf) != 1:
+        raise core.AnalysisBroken("Fieldprops::compress(data, active_map, values_per_cell) not found")
+    cf = cf[0]
+    p_d, p_m, p_v = [p_["n"] for p_ in cf["params"]]
+    inl_c = Inliner(cf)
+    c_top = stmt_list(cf["body"])
+    c_shift = [v["n"] for s_ in c_top if s_["k"] == "Decl" for v in s_["vars"] if show(v.get("init")) == "0"]
+    c_l1 = [s_ for s_ in c_top if s_["k"] == "For"]
+    c_l2 = [s_ for s_ in stmt_list(c_l1[0]["body"]) if s_["k"] == "For"] if len(c_l1) == 1 else []
+    if len(c_shift) != 1 or len(c_l1) != 1 or len(c_l2) != 1:
+        raise core.AnalysisBroken("Fieldprops::compress: shift counter / nested loops not found")
+    ctext = inl_c.render(cf["body"], roles={p_d: "D", p_m: "M", p_v: "V", c_shift[0]: "1", c_l1[0]["init"]["vars"][0]["n"]: "2", c_l2[0]["init"]["vars"][0]["n"]: "3"})
+    ctext = re.sub(r"std::size_t \w+ = 0;; \(\$([23]) <", r"std::size_t $\1 = 0;; ($\1 <", ctext)
+    want_parts = ["if ((($M.size() * $V) != $D.size()))", "for (std::size_t $2 = 0;; ($2 < $V); (++$2))", "for (std::size_t $3 = 0;; ($3 < $M.size()); (++$3))",
+                  "if (($M[$3] && ($1 > 0))) {", "($D[((($2 * $M.size()) + $3) - $1)] = $D[(($2 * $M.size()) + $3)]) continue; }", "if ((!$M[$3])) { ($1 += 1) }", "$D.resize(($D.size() - $1))"]
+    miss_c = [w for w in want_parts if w not in ctext]
+    fd_clause("compress", cf, not miss_c, ("missing: %s in %s" % (miss_c, ctext[:400])) if miss_c else "ok", "size check data.size() == cells x values; for every value block and every cell g: an active cell moves down by the number of inactive entries met so far (shift), an inactive one increases shift by 1; finally resize to size - shift")
+    vf = fdf.get("valid", [None])[0]
+    if vf is None:
+        raise core.AnalysisBroken("FieldData::valid not found")
+    vt = show(vf["body"])
+    lam = [x for x in walk(vf["body"]) if x["k"] == "Lambda"]
+    lt = show(lam[0]["body"]) if len(lam) == 1 else ""
+    lp_ = lam[0]["params"][0]["n"] if len(lam) == 1 and lam[0].get("params") else "?"
+    okv = "std::none_of(this.value_status.begin(), this.value_status.end()" in vt and lt in ("{ return ((%s == Opm::value::status::uninitialized) || (%s == Opm::value::status::empty_default)); }" % (lp_, lp_), "{ return ((%s == Opm::value::status::empty_default) || (%s == Opm::value::status::uninitialized)); }" % (lp_, lp_))
+    fd_clause("valid", vf, okv, vt[:200] + " | " + lt, "none_of over all of value_status of (status == uninitialized || status == empty_default)")
+    for nm_ in ("default_assign", "default_update"):
+        for f in fdf.get(nm_, []):
+            if len(f["params"]) == 1 and "vector" in f["params"][0]["t"]:
+                top_ = stmt_list(f["body"])
+                g0 = top_[0] if top_ else {}
+                okg = g0.get("k") == "If" and show(strip(g0["cond"])) in ("(%s.size() != this.dataSize())" % f["params"][0]["n"], "(this.dataSize() != %s.size())" % f["params"][0]["n"]) and any(x["k"] == "Throw" for x in walk(g0["then"]))
+                fd_clause(nm_ + ":size", f, okg, show(g0.get("cond")) if g0 else "-", "first statement: if (src.size() != dataSize()) throw")
     eq = fdf.get("operator==", [None])[0]
     if eq is None:
         raise core.AnalysisBroken("FieldData::operator== not found")
@@ -690,6 +724,25 @@ def run(chk):
     mem = ["data", "value_status", "kw_info", "global_data", "global_value_status"]
     miss = [m_ for m_ in mem if "(this.%s == %s.%s)" % (m_, other, m_) not in etxt and "(%s.%s == this.%s)" % (other, m_, m_) not in etxt]
     fd_clause("operator==", eq, not miss and "||" not in etxt and "!=" not in etxt, etxt[:300], "conjunction of == over data, value_status, kw_info, global_data, global_value_status (missing: %s)" % miss)
+
+    ug = [f for f in fns if f["n"] == "update_global_from_local" and f["file"].endswith("FieldProps.cpp")]
+    if len(ug) != 1:
+        raise core.AnalysisBroken("update_global_from_local not found")
+    ug = ug[0]
+    inl_g = Inliner(ug)
+    dp = ug["params"][0]["n"]
+    lps = [n for n in walk(ug["body"]) if n["k"] == "ForRange" and show(n["range"]) == ug["params"][1]["n"]]
+    refs_g = {v["n"]: "(" + show(strip(v["init"])).strip("()") + ")" for n in walk(ug["body"]) if n["k"] == "Decl" for v in n["vars"] if isinstance(v.get("init"), dict) and "&" in (v.get("t") or "")}
+
+    def g_render(s_):
+        t = show(s_)
+        for nm_, init_ in sorted(refs_g.items(), key=lambda kv: -len(kv[0])):
+            t = re.sub(r"(?<![\w.$])%s\b" % re.escape(nm_), init_.replace("\\", "\\\\"), t)
+        t = re.sub(r"(?<![\w.$])%s\b" % re.escape(lps[0]["var"]["n"]), "$c", t)
+        return re.sub(r"(?<![\w.$])%s\b" % re.escape(dp), "$F", t)
+    gt = sorted(g_render(s_) for s_ in stmt_list(lps[0]["body"])) if len(lps) == 1 else []
+    want_g = sorted(["((*$F.global_data)[$c.global_index] = ($F.data)[$c.active_index])", "((*$F.global_value_status)[$c.global_index] = ($F.value_status)[$c.active_index])"])
+    fd_clause("update_global_from_local", ug, gt == want_g, gt, "for every listed cell: global data and global status at global_index receive data and status at active_index (through references to the object's own storage)")
 
     # ---- C12.opapply: FieldProps::operate, the loop of OPERATE / OPERATER
     r_oa = chk.rule("C12.opapply", "FieldProps::operate: target and source data and status are all taken from the global storage if `global` is set and all from the per-active-cell storage otherwise; a cell is computed only if the source has a value there and - for MULTIPLY and POLY, which read the target - the target has one too, otherwise the keyword is rejected; the result is func(target, source) at the same index and the cell takes the status of the source; handle_OPERATE applies it to the box's active cells and, when the target has global storage, again to all cells of the box with global set", floor=5)
@@ -937,7 +990,7 @@ def run(chk):
             chk.violation(r_dp, "COPY:flag", "handle_COPY's region flag must be `name == COPYREG`: found %s" % flag, hk["file"], cp[2]["l"])
 
     # ---- C12.region: which cells a region operation touches
-    r_rg = chk.rule("C12.region", "FieldProps::region_index lists exactly the ACTIVE cells whose region array holds the requested value: it walks all cells, advances the active index once per active cell only, tests the region array at the active index with ==, and records (global, active, global)", floor=1)
+    r_rg = chk.rule("C12.region", "FieldProps::region_index lists exactly the ACTIVE cells whose region array holds the requested value: it walks all cells, advances the active index once per active cell only, tests the region array at the active index with ==, and records (global, active, global); the walk starts at cell 0 / active index 0 with step 1; the all-active flag starts true, is cleared exactly where an inactive cell is met and is returned with the list", floor=1)
     ri = [f for f in fns if f["n"] == "region_index" and (f.get("cls") or "").endswith("FieldProps")]
     if len(ri) != 1:
         raise core.AnalysisBroken("FieldProps::region_index: %d definitions" % len(ri))
@@ -962,6 +1015,23 @@ def run(chk):
             okr = oc in ("(this.m_actnum[%s]!=0)" % g_, "(this.m_actnum[%s]>0)" % g_) and len(inner) == 1 and len(incs) == 1 and a_ is not None \
                 and ic == "(region.data[%s]==%s)" % (a_, rv) and len(emp) == 1 and emp[0].endswith("emplace_back(%s,%s,%s)" % (g_, a_, g_)) \
                 and th.index(inner[0]) < th.index(incs[0]) and show(strip(lp["cond"])).replace(" ", "") == "(%s<this.m_actnum.size())" % g_
+            # the walk starts at cell 0 with active index 0 and advances one cell at a time
+            g_init = [show(v.get("init")) for d in walk(lp.get("init") or {}) if d["k"] == "Decl" for v in d["vars"]]
+            a_init = [show(v.get("init")) for n in stmt_list(ri["body"]) if n["k"] == "Decl" for v in n["vars"] if v["n"] == a_]
+            det.update(start=g_init, counter_start=a_init, step=show(lp.get("inc")))
+            okr = okr and g_init == ["0"] and a_init == ["0"] and show(lp.get("inc")) in ("(++%s)" % g_, "(%s++)" % g_)
+            # all_active: true initially, cleared exactly in the branch of an inactive cell, returned with the list
+            flags = [v["n"] for n in stmt_list(ri["body"]) if n["k"] == "Decl" for v in n["vars"] if (v.get("t") or "") == "bool"]
+            if len(flags) == 1:
+                fl = flags[0]
+                f_init = [show(v.get("init")) for n in stmt_list(ri["body"]) if n["k"] == "Decl" for v in n["vars"] if v["n"] == fl]
+                sets = [(show(x), any(x is y for y in walk(outer[0]["else"])) if outer[0].get("else") is not None else False) for x in walk(ri["body"]) if x["k"] == "Bin" and x.get("asg") and strip(x["c"][0]).get("n") == fl]
+                rets = [show(r_["e"]) for r_ in walk(ri["body"]) if r_["k"] == "Return" and isinstance(r_.get("e"), dict)]
+                lst = [v["n"] for n in stmt_list(ri["body"]) if n["k"] == "Decl" for v in n["vars"] if "vector" in (v.get("t") or "") and "cell_index" in (v.get("t") or "")]
+                det.update(all_active=dict(init=f_init, cleared=sets, returns=rets))
+                okr = okr and f_init == ["true"] and sets == [("(%s = false)" % fl, True)] and len(rets) == 1 and len(lst) == 1 and re.sub(r"^[\w:<>, ]*\{|\}$", "", rets[0]).replace(" ", "") == "%s,%s" % (lst[0], fl)
+            else:
+                okr = False
     chk.instance(r_rg, "region_index", sample=det)
     if not okr:
         chk.violation(r_rg, "region_index", "FieldProps::region_index no longer selects exactly the active cells whose region value equals the requested one with a correctly advancing active index (%s): a region operation touches other cells, or values of other cells" % det, ri["file"], ri["l"])
